@@ -144,7 +144,12 @@ def fix_constraint_cholesky(ZTx, s_chol, d, P, P_inorder, U, tolerance):
             cholesky_funcs.
     """
     q = P * (s_chol <= tolerance)
-    alpha = np.min(d[q] / (d[q] - s_chol[q]))
+
+    # A parameter which entered the passive set at d = 0 and whose solution is also 0 gives 0 / 0 below: it
+    # cannot move and must simply leave the passive set again, which a step length of zero achieves.
+
+    step = d[q] - s_chol[q]
+    alpha = np.min(np.where(step > 0.0, d[q] / np.where(step > 0.0, step, 1.0), 0.0))
 
     # set d as close to s as possible while maintaining non-negativity
     d = d + alpha * (s_chol - d)
